@@ -714,6 +714,10 @@ def candidates(p):
         for i, q in enumerate(items):
             for c in candidates(q):
                 yield ("seq", items[:i] + [c] + items[i + 1:])
+    elif t == "with" and p[1] == "subst":
+        # a call of funsor.terms.substitute: atomic
+        if p[2][2]:
+            yield ("with", "subst", ("probe", "S", False))
     elif t in ("with", "deco"):
         yield p[2]
         if p[2] != ("skip",):
